@@ -108,3 +108,31 @@ func VH_C06_snow_prefix() {
 	vrt.Equal(a, b[:n], "GetKeyStream(n) is a prefix of GetKeyStream(n+3)")
 	vrt.Equal(b, ref.SnowKeystream(k, iv, n+3), "GetKeyStream = reference SnowKeystream")
 }
+
+// long keystreams: a NAS payload may be 65535 octets = 16384 keystream words; whatever batching, block size or counter a
+// generator uses internally, words far into the stream must still be the reference words. With a symbolic key the
+// executor does not get through 4097 clocks within the per-path limit (measured: > 120 s), so key and IV are one of two
+// fixed values here and only the length dimension is explored; the one-clock lemma (VH_C06_snow_clock) carries the
+// key/IV quantifier for every clock of such a stream.
+func VH_C06_snow_keystream_long() {
+	ns := []int{1025} // 4097 words take about three minutes on one core: thorough tier
+	if vrt.Thorough() {
+		ns = []int{1025, 4097, 8193}
+	}
+	n := ns[vrt.Choose("nsel", 0, len(ns)-1)]
+	var k, iv [4]uint32
+	if vrt.Choose("keysel", 0, 1) == 0 {
+		k = [4]uint32{0x2bd6459f, 0x82c5b300, 0x952c4910, 0x4881ff48}
+		iv = [4]uint32{0xea024714, 0xad5c4d84, 0xdf1f9b25, 0x1c0bf45f}
+	} else {
+		k = [4]uint32{0xffffffff, 0, 0x80000001, 0x7fffffff}
+		iv = [4]uint32{0, 0xffffffff, 1, 0x80000000}
+	}
+	ks := GetKeyStream(k, iv, n)
+	var r ref.Snow3G
+	r.Initialize(k, iv)
+	kr := r.GenerateKeystream(n)
+	vrt.Assert(len(ks) == n, "GetKeyStream returns n words (long)")
+	vrt.Equal(ks[n-3:], kr[n-3:], "the last words of a long keystream are the reference words")
+	vrt.Equal(ks[n/2:n/2+2], kr[n/2:n/2+2], "words in the middle of a long keystream are the reference words")
+}
